@@ -599,7 +599,7 @@ func run(tier core.Tier) *core.Report {
 		acc, t := evalVote(rv, 3, mustEntries(toks))
 		rep.Sample(map[string]interface{}{"case": Case{Seam: "CheckVote", N: 3, Collector: collector, Entries: toks}, "accepted": acc, "first_is_valid_member_signature": t.FirstIsMember})
 	}
-	rep.Assume("the collector of a certificate is the signer of the proposal (SMR path) / the proposer of the block (tdpos, xpoa) that carries it: V1")
+	rep.Assume("a certificate does not name its collector; the sender of the proposal / proposer of the block (V1) may carry a certificate another validator collected, so V1's own valid signature counts as one member signature (excluding it would refuse the honest fork case of TestSMR); judged: accepted => distinct valid member signatures >= n-floor((n-1)/3)-1")
 	rep.Assume("entries of one kind are interchangeable: invalid entries are attributed to the members Vn, Vn-1, ... in turn; lists are tried in canonical and reversed order, not in every permutation")
 	rep.Assume("tdpos / xpoa run over a stub LedgerRely, network and kernel registry (two stored blocks, initial validator set), block at height 2 wrapped by the real state.BlockAgent")
 	rep.Assume("binding of the certificate to the block's parent (justify id vs PreHash) is outside this statement and not judged here")
